@@ -49,7 +49,8 @@ func (k msgServer) Reset(goCtx context.Context, msg *types.MsgReset) (*types.Msg
 		if !found {
 			return nil, sdkerrors.Wrapf(types.ErrValidatorNotFound, "%s", msg.Validator)
 		}
-		node.Validator = msg.Validator
+		// store the canonical spelling: the staking hooks compare it with valAddr.String()
+		node.Validator = valAddr.String()
 	}
 
 	if msg.Description != nil && node.Description != msg.Description {
